@@ -133,10 +133,13 @@ def split(r, data, datagram):
         pass
     n = len(data)
     if n <= 1 or r.random() < 0.3:
-        return [data]
+        return [data] if not (datagram and r.random() < 0.2) else [data, b'']
     cuts = sorted(set(r.randrange(1, n) for _ in range(r.randint(1, 5))))
     pts = [0] + cuts + [n]
-    return [data[a:b] for a, b in zip(pts, pts[1:])]
+    out = [data[a:b] for a, b in zip(pts, pts[1:])]
+    if datagram and r.random() < 0.2:
+        out.insert(r.randrange(len(out) + 1), b'')          # a zero-length datagram is legal
+    return out
 
 
 # ------------------------------------------------------------------ oracle pieces
@@ -273,13 +276,26 @@ def probe_reads(framing, layout, n):
     return a, out
 
 
-def check(run, case):
+STALLS = [0]
+
+
+def check(run, case, _second=False):
     front, framing, layout = case['front'], case['framing'], case['layout']
     repo.reset_globals()
     ctx, model, blocks = SM.build(layout)
     before = SM.norm_dump(SM.dump(blocks, layout['zero_mode']))
     reads = case['reads']
     res = FE.feed(front, framing, ctx, list(reads))
+    if res.stalled and not _second:
+        # the front-end did not return within the wall-clock guard: once more before it is judged (a stall that does not
+        # repeat was the machine and is counted as a watchdog)
+        run.count('stalls_seen')
+        again = check(run, case, _second=True)
+        return again
+    if res.stalled:
+        STALLS[0] += 1
+    elif _second:
+        run.watchdogs += 1
     after = SM.norm_dump(SM.dump(blocks, layout['zero_mode']))
     tag = '%s/%s' % (front, framing)
     run.count('hostile_inputs:%s' % front)
@@ -317,9 +333,14 @@ def check(run, case):
         else:
             kinds['unjustified-store-change'] = 'cells (table, addr, old, new) changed although no valid write request in the bytes writes that value: %r' % (bad[:4],)
     # (3) probe on a fresh connection / later on the same serial line
-    serial = front == 'sync-serial'
-    if serial:
+    # (a datagram endpoint is one long-lived protocol object - there is no fresh connection: the probes go to the same endpoint
+    # after the hostile datagrams, and the third one must be answered)
+    dgram = front in FE.DATAGRAM
+    serial = front == 'sync-serial' or dgram
+    if front == 'sync-serial':
         nprobe = SERIAL_BOUND[framing] // 8 + 12
+    elif dgram:
+        nprobe = 3
     else:
         nprobe = 1
     addr, probes = probe_reads(framing, layout, nprobe)
@@ -327,13 +348,27 @@ def check(run, case):
     if serial:
         # same line: the hostile bytes followed by the probes, one per read, on one handler
         ctx2, model2, blocks2 = SM.build(layout)
-        res2 = FE.feed(front, framing, ctx2, list(reads) + [p for _, p in probes])
+        res2 = FE.feed(front, framing, ctx2, list(reads) + [p for _, p in probes]) if not res.stalled else res
+        if res2.stalled and not res.stalled:
+            ctx2, model2, blocks2 = SM.build(layout)
+            res2 = FE.feed(front, framing, ctx2, list(reads) + [p for _, p in probes])
+            if res2.stalled:
+                kinds['stuck'] = 'the handler of %s blocks while serving the requests that follow the hostile input' % tag
+            else:
+                run.watchdogs += 1
         out = b''.join(res2.per_read[len(reads):])
         now = SM.norm_dump(SM.dump(blocks2, layout['zero_mode']))
         for e in res2.escaped:
-            kinds['escaped:%s' % type(e).__name__] = 'exception left handle(): %r' % (e,)
+            if not front.startswith('tw'):
+                kinds['escaped:%s' % type(e).__name__] = 'exception left handle(): %r' % (e,)
     else:
-        res2 = FE.feed(front, framing, ctx, [probes[0][1]])
+        res2 = FE.feed(front, framing, ctx, [probes[0][1]]) if not res.stalled else res
+        if res2.stalled and not res.stalled:
+            res2 = FE.feed(front, framing, ctx, [probes[0][1]])          # once more before it is judged
+            if res2.stalled:
+                kinds['stuck'] = 'after the hostile input a fresh connection to %s is never served: the handler blocks' % tag
+            else:
+                run.watchdogs += 1
         out = res2.out if front in FE.STREAM else b''.join(d for d, _ in res2.datagrams)
         for e in res2.escaped:
             if not front.startswith('tw'):
@@ -344,14 +379,14 @@ def check(run, case):
     want = ADU.build(framing, UNIT, want_pdu, tid=0x5000 + nprobe - 1)
     run.count('probes')
     if not (out.endswith(want) or (framing == 'binary' and _binary_tail_ok(out, UNIT, want_pdu))):
-        if serial and framing == 'ascii' and _ascii_stray_colon(stream):
+        if serial and not dgram and framing == 'ascii' and _ascii_stray_colon(stream):
             regs.add('ascii-bad-lrc-blocks-forever')
             kinds['probe-unanswered-after-ascii-span'] = 'serial line deaf after the hostile bytes'
-        elif serial and framing == 'binary' and any(b in (0x7B, 0x7D) for b in want[1:-1]):
+        elif serial and not dgram and framing == 'binary' and any(b in (0x7B, 0x7D) for b in want[1:-1]):
             pass                      # the probe's own reply needs escaping: not a liveness matter
         else:
             kinds['probe-unanswered'] = 'after the hostile input a well-formed read on %s was answered with %s, expected ...%s' % (
-                'the same line' if serial else 'a fresh connection', out[-40:].hex(), want.hex())
+                'the same datagram endpoint (third probe)' if dgram else 'the same line' if serial else 'a fresh connection', out[-40:].hex(), want.hex())
     else:
         run.count('probes_answered')
     if not regs:
@@ -421,6 +456,8 @@ def run(run):
             data, frames = hostile_stream(r, framing, layout, uniq, cls)
             reads = split(r, data, front in FE.DATAGRAM) if cls != 'blob' else [data[i:i + 1024] for i in range(0, len(data), 1024)]
             case = {'front': front, 'framing': framing, 'layout': layout, 'reads': reads, 'class': cls}
+            if STALLS[0] >= 3 or FE.STALL_COUNT[0] >= 6:
+                break                     # a front-end that blocks for ever costs two guard periods per case: three witnesses are enough
             ok = check(run, case)
             run.count('class:%s' % cls)
             run.case(h64((front, framing, data, tuple(len(x) for x in reads))), True,
